@@ -329,3 +329,52 @@ Proof.
   intros o Ho. pose proof kind_cover_b as H. rewrite forallb_forall in H. specialize (H o Ho).
   apply existsb_exists in H. destruct H as (pr & Hin & Heq). apply String.eqb_eq in Heq. eauto.
 Qed.
+
+(* the entries whose deviations were repaired in /repo conform outright *)
+Definition repaired_props : list (string * string) :=
+  [("Math", "atan2"); ("Number.prototype", "toString"); ("Number.prototype", "toLocaleString");
+   ("spec.str", "0"); ("spec.str", "1")].
+Definition repaired_objs : list string :=
+  ["Date.prototype"; "EvalError.prototype"; "RangeError.prototype"; "ReferenceError.prototype";
+   "SyntaxError.prototype"; "TypeError.prototype"; "URIError.prototype"].
+
+Definition repaired_ok (d : dump) : bool :=
+  forallb (fun e => negb (existsb (fun x => String.eqb (fst x) (e_owner e) && String.eqb (snd x) (e_name e)) repaired_props) ||
+                    match entry_fails e (observe d (e_owner e) (e_name e)) with [] => true | _ => false end) all_props &&
+  forallb (fun oe => negb (existsb (String.eqb (oe_path oe)) repaired_objs) ||
+                     match oentry_fails oe (find_obj d (oe_path oe)) with [] => true | _ => false end) all_objs &&
+  forallb (fun x => existsb (fun e => String.eqb (fst x) (e_owner e) && String.eqb (snd x) (e_name e)) all_props) repaired_props &&
+  forallb (fun x => existsb (fun oe => String.eqb x (oe_path oe)) all_objs) repaired_objs.
+
+Lemma repaired_b : forallb repaired_ok configs = true.
+Proof. vm_compute. reflexivity. Qed.
+
+Lemma repaired_props_conform : forall d e, In d configs -> In e all_props ->
+  In (e_owner e, e_name e) repaired_props -> entry_fails e (observe d (e_owner e) (e_name e)) = [].
+Proof.
+  intros d e Hd He Hr. pose proof repaired_b as H. rewrite forallb_forall in H. specialize (H d Hd).
+  unfold repaired_ok in H. apply andb_prop in H; destruct H as [H _]. apply andb_prop in H; destruct H as [H _].
+  apply andb_prop in H; destruct H as [H _].
+  rewrite forallb_forall in H. specialize (H e He).
+  apply orb_prop in H. destruct H as [H|H].
+  - exfalso. apply negb_true_iff in H.
+    assert (existsb (fun x => String.eqb (fst x) (e_owner e) && String.eqb (snd x) (e_name e)) repaired_props = true).
+    { apply existsb_exists. exists (e_owner e, e_name e). split; [assumption|]. simpl. rewrite !String.eqb_refl. reflexivity. }
+    congruence.
+  - destruct (entry_fails e (observe d (e_owner e) (e_name e))); [reflexivity | discriminate].
+Qed.
+
+Lemma repaired_objs_conform : forall d oe, In d configs -> In oe all_objs ->
+  In (oe_path oe) repaired_objs -> oentry_fails oe (find_obj d (oe_path oe)) = [].
+Proof.
+  intros d oe Hd He Hr. pose proof repaired_b as H. rewrite forallb_forall in H. specialize (H d Hd).
+  unfold repaired_ok in H. apply andb_prop in H; destruct H as [H _]. apply andb_prop in H; destruct H as [H _].
+  apply andb_prop in H; destruct H as [_ H1].
+  rewrite forallb_forall in H1. specialize (H1 oe He).
+  apply orb_prop in H1. destruct H1 as [H1|H1].
+  - exfalso. apply negb_true_iff in H1.
+    assert (existsb (String.eqb (oe_path oe)) repaired_objs = true).
+    { apply existsb_exists. exists (oe_path oe). split; [assumption|]. apply String.eqb_refl. }
+    congruence.
+  - destruct (oentry_fails oe (find_obj d (oe_path oe))); [reflexivity | discriminate].
+Qed.
